@@ -183,11 +183,20 @@ fn finish_res<T: ScalarOut>(r: Result<T, CapErr>, input: &OV) -> J {
 
 fn run_one<T: Deserr<CapErr> + ScalarOut>(input: &OV, src: &str) -> Option<J> {
     NERR.with(|c| c.set(0));
-    let r = match src {
-        "ov" => deserr::deserialize::<T, OV, CapErr>(input.clone()),
-        _ => deserr::deserialize::<T, J, CapErr>(ov_to_json(input)?),
-    };
-    Some(finish_res(r, input))
+    let jv = if src == "ov" { None } else { Some(ov_to_json(input)?) };
+    let r = crate::util::quiet_catch(|| match jv {
+        None => deserr::deserialize::<T, OV, CapErr>(input.clone()),
+        Some(j) => deserr::deserialize::<T, J, CapErr>(j),
+    });
+    Some(match r {
+        Ok(r) => finish_res(r, input),
+        Err(m) => {
+            let mut res = blank_res();
+            res["z"] = json!("panic");
+            res["text"] = json!(m);
+            res
+        }
+    })
 }
 
 pub const TARGETS: [&str; 30] = [
